@@ -113,7 +113,7 @@ struct Lk {
 
 struct Ev { int uid; int status; std::vector<c15ref::RepA> a; std::vector<c15ref::RepC> c; };
 
-enum ExpKind { X_NOCB, X_MUST, X_MAY, X_MAY_ERR, X_MAY_ALLFAIL };
+enum ExpKind { X_NOCB, X_MUST, X_MAY, X_MAY_EXACT, X_MAY_ERR, X_MAY_ALLFAIL };
 struct Exp {
     ExpKind k = X_NOCB; int uid = -1; int status = 0; std::string why; bool counts_fail = false; int srv = 0;
     c15ref::Info info;
@@ -261,6 +261,9 @@ struct Ctx {
         Lk &L = lk[x.uid];
         if (rcode == 0) {
             if (I.strict) { x.k = X_MUST; x.status = int(Status::kSuccess); x.why = "well-formed-reply"; }
+            // the whole message parses under RDLENGTH framing but has an unusual feature (slack behind a CNAME's name, odd label
+            // bytes, ...): a client may refuse it, but one that answers kSuccess from it must report exactly its records
+            else if (I.framed) { x.k = X_MAY_EXACT; x.status = int(Status::kSuccess); x.why = I.why; }
             else { x.k = X_MAY; x.why = I.why; }
             return x;
         }
@@ -336,6 +339,18 @@ struct Ctx {
                     vh::counter_max("max_pointer_jumps_in_strict_reply", I.max_jumps);
                 } else vh::counter(std::string("error_replies_delivered_") + status_name(x.status));
                 break;
+            case X_MAY_EXACT:
+                if (ev && ev->status == int(Status::kSuccess)) {
+                    const c15ref::Info &I = x.info;
+                    bool same = ev->a.size() == I.a.size() && ev->c.size() == I.c.size();
+                    for (size_t i = 0; same && i < I.a.size(); ++i) same = ev->a[i].ttl == I.a[i].ttl && memcmp(ev->a[i].ip, I.a[i].ip, 4) == 0;
+                    for (size_t i = 0; same && i < I.c.size(); ++i) same = ev->c[i].ttl == I.c[i].ttl && c15ref::norm_name(ev->c[i].name) == c15ref::norm_name(I.c[i].name);
+                    if (!same) vh::viol("once/reply/content-differs-from-rdlength-framed-reply",
+                                        show_ev(*ev) + vh::fmt(" expected A[%zu] CNAME[%zu]", I.a.size(), I.c.size()) + ctx());
+                    vh::counter("framed_unusual_replies_delivered_exactly");
+                    if (I.n_slack_cname) vh::counter("slack_cname_replies_delivered_exactly");
+                }
+                // fall through
             case X_MAY:
                 if (ev) {
                     vh::counter("malformed_reply_completed_lookup");
